@@ -1024,7 +1024,15 @@ func (s *qSim) cycle(op qOp, strict bool) {
 		pre = s.modelVerdictInputs(pod)
 	}
 	var status *fwktype.Status
+	labelled := pod.Labels[extension.LabelQuotaName] != ""
+	unknownBefore := labelled && !s.quotaKnown(pod)
 	s.aroundPodEvent(pod, func() { _, status = s.pl.PreFilter(context.TODO(), framework.NewCycleState(), pod, nil) })
+	if status.IsSuccess() && labelled && (unknownBefore || !s.quotaKnown(pod)) {
+		// history class of a recorded finding (known_findings.jsonl): the pod is admitted while the plugin does not know the
+		// pod's own quota (the quota informer lags the scheduling queue): the decision is taken against the default quota,
+		// and the later migration charges the real quota without any limit check
+		s.r.Tag("admitted-while-own-quota-unknown")
+	}
 	s.r.Event("prefilter %s %v", op.P, status.Code())
 	if strict {
 		s.checkVerdict(pod, status, pre)
